@@ -122,6 +122,8 @@ class Pipe:
         self.kind = kind  # 'tcp' | 'uds'
         self.target = target  # (host, port) or path
         self.inbound = bytearray()  # server -> client, not yet read
+        self.in_flight = bytearray()  # server -> client, sent but not yet arrived (gated delivery)
+        self.eof_pending = False
         self.eof = False  # server closed its side
         self.client_closed = False
         self.broken = False
@@ -143,8 +145,8 @@ class Pipe:
         self.noseg_until = 0  # server->client offset below which reads are not segmented (SOCKS negotiation)
 
     # ---- server side API used by peers
-    def server_send(self, data: bytes) -> None:
-        if not data or self.client_closed or self.broken or self.eof:
+    def server_send(self, data: bytes, direct: bool = False) -> None:
+        if not data or self.client_closed or self.broken or self.eof or self.eof_pending:
             return
         if self.truncate_at is not None and len(self.sent) + len(data) >= self.truncate_at:
             data = data[: max(0, self.truncate_at - len(self.sent))]
@@ -152,11 +154,27 @@ class Pipe:
             self.sent += data
             self.eof = True  # the connection ends here
             return
-        self.inbound += data
+        if self.world.deliver_gated and not direct:
+            self.in_flight += data  # on the wire, not yet readable: a scheduler action delivers it
+        else:
+            self.inbound += data
         self.sent += data
 
     def server_close(self) -> None:
-        self.eof = True
+        if self.in_flight:
+            self.eof_pending = True
+        else:
+            self.eof = True
+
+    def deliver(self, n=None) -> None:
+        """Move in-flight server bytes into the client's receive buffer (concurrent drivers only)."""
+        k = len(self.in_flight) if not n else min(n, len(self.in_flight))
+        if not self.client_closed and not self.broken:
+            self.inbound += self.in_flight[:k]
+        del self.in_flight[:k]
+        if not self.in_flight and self.eof_pending:
+            self.eof_pending = False
+            self.eof = True
 
     @property
     def open(self) -> bool:
@@ -186,6 +204,7 @@ class World:
         self.seg_everything = False  # also segment negotiation replies (C15 only)
         self.cuts = {int(k): sorted(set(v)) for k, v in (cuts or {}).items()}  # pipe ordinal -> absolute offsets
         self.truncate: dict[int, int] = {}  # pipe ordinal -> server stream length after which the peer closes
+        self.deliver_gated = False  # concurrent drivers: server bytes arrive through explicit deliver actions
         self.agate = None  # async gate: await agate(kind, pipe, info) -> value
         self.sgate = None  # sync gate (controlled threads)
         self.on_op = None  # callback(op) after every completed op (oracles evaluated at op boundaries)
